@@ -185,8 +185,8 @@ func runC01(c *Ctx) {
 						}
 					}
 					if fromCall || fromKey {
-						// key must be packet-derived (quoted identifier), or the accessor takes no key (last probe)
-						kd := len(keyArgs) == 0
+						// key must be packet-derived (quoted identifier); only a direct reply may use the keyless last-probe accessor
+						kd := len(keyArgs) == 0 && cls.Form == "tcp-direct"
 						for _, ka := range keyArgs {
 							if packetDerived(ka) {
 								kd = true
